@@ -63,6 +63,10 @@ class ExtendsNode(Node):
         try:
             base_template = _build_block_stacks(context, context.template, "extends")
             base_template.render_with_context(context, buffer)
+        except TemplateInheritanceError as err:
+            if not err.token:
+                err.token = self.token
+            raise
         finally:
             context.tag_namespace["extends"] = outer_block_stacks
 
@@ -80,6 +84,10 @@ class ExtendsNode(Node):
                 context, context.template, "extends"
             )
             await base_template.render_with_context_async(context, buffer)
+        except TemplateInheritanceError as err:
+            if not err.token:
+                err.token = self.token
+            raise
         finally:
             context.tag_namespace["extends"] = outer_block_stacks
 
@@ -467,7 +475,15 @@ def _build_block_stacks(
         if next_template:
             base = next_template
 
-    assert base
+    if base is None:
+        # An `extends` tag that is not among the template's own nodes. In the body
+        # of a macro that is called from another template, for example.
+        raise TemplateInheritanceError(
+            "the template being rendered has no extends tag",
+            token=None,
+            template_name=template.full_name(),
+        )
+
     return base
 
 
@@ -520,7 +536,15 @@ async def _build_block_stacks_async(
         if next_template:
             base = next_template
 
-    assert base
+    if base is None:
+        # An `extends` tag that is not among the template's own nodes. In the body
+        # of a macro that is called from another template, for example.
+        raise TemplateInheritanceError(
+            "the template being rendered has no extends tag",
+            token=None,
+            template_name=template.full_name(),
+        )
+
     return base
 
 
